@@ -18,7 +18,7 @@ CHECK = {
                   "sequentially consistent; 2-3 threads; capacities 256 buffers/1024 tasks/256 queue slots are assumed sufficient. "
                   "Bound completed per configuration is in the evidence.",
     "quick_deadline": 140,
-    "thorough_deadline": 1200,
+    "thorough_deadline": 2400,
     "parts": [{"name": "photon-loop", "bin": "c01_photon", "share": 9.0},
               {"name": "rhd-photon-loop", "bin": "c07_hydroloop", "args": ["--mode", "2"], "share": 3.0},
               {"name": "packet-split", "bin": "c01_split", "share": 1.0},
